@@ -50,6 +50,10 @@ CHECKS.update({
    text="Explicit-state search over a network of 2-3 replicating replicas: writes, delivery/drop/duplication of any in-flight topic or direct-channel message, link cuts and heals, peer restarts, within stated budgets; from every explored state a final phase (reconnect every pair, deliver everything, no further fault) is run on a fresh replay and every replica must then hold every acknowledged write and show the same state.",
    note="Trusted: sim network semantics (fetch succeeds iff a linked peer holds the block; reconnection makes both sides see a join). Final phase uses canonical delivery order.",
    tech="explicit-state DFS by replay over the real implementation with fault actions and a final-phase convergence oracle from every state"),
+ "C09": dict(cat="model_checking", ref="5/C09",
+   text="Explicit-state search over an instance holding 2-4 databases on its shared event bus plus a remote writer: write, load, remote write and message delivery in every order up to the depth bound; after every action every database not named by the action must be unchanged (entries, heads, view, cached heads, replication status, emitted events) and every message and store event must carry only its own database's address and entries.",
+   note="Trusted: sim environment; the instance bus is the real libp2p bus wrapped only for observation.",
+   tech="explicit-state DFS by replay over the real implementation with frame-condition (non-interference) oracle at every step"),
 })
 NOT_APPLICABLE = []
 ALL = ["C%02d" % i for i in range(1, 21)]
